@@ -60,6 +60,16 @@ pub fn exec_array(scn: &Scenario, prop: Prop) -> RunResult {
         ElemTy::Boxed => exec_ord::<Boxed>(scn, prop),
         ElemTy::Fat => exec_ord::<Fat>(scn, prop),
         ElemTy::Reent => exec_ord::<Reent>(scn, prop),
+        ElemTy::Zst => exec_ord::<Zst>(scn, prop),
+        ElemTy::OptI8 => exec_nan::<Option<i64>>(scn, prop), // not instantiated separately (compile time); never generated
+        ElemTy::OptI16 => exec_nan::<Option<i64>>(scn, prop), // not instantiated separately (compile time); never generated
+        ElemTy::OptI64 => exec_nan::<Option<i64>>(scn, prop),
+        ElemTy::OptI128 => exec_nan::<Option<i128>>(scn, prop),
+        ElemTy::OptU16 => exec_nan::<Option<u16>>(scn, prop),
+        ElemTy::OptU32 => exec_nan::<Option<i64>>(scn, prop), // not instantiated separately (compile time); never generated
+        ElemTy::OptU64 => exec_nan::<Option<i64>>(scn, prop), // not instantiated separately (compile time); never generated
+        ElemTy::OptU128 => exec_nan::<Option<i64>>(scn, prop), // not instantiated separately (compile time); never generated
+
     }
 }
 
